@@ -150,6 +150,28 @@ fn boundary_names() -> Vec<String> {
         v.push(format!("copy_file_{sz}"));
     }
     v.push("epoll_wait_zero_buf".to_string());
+    // EXTREME / unconvertible argument values, no fault: durations, paths, ports, counts
+    for op in ["tcp_connect_timeout", "tcp_accept_timeout", "unix_accept_timeout", "tcp_read_timeout"] {
+        for d in ["zero", "1ns", "max", "secs_u64max", "nanos_u64max", "secs_i64max", "secs_i64max_plus1"] {
+            v.push(format!("extreme_{op}_{d}"));
+        }
+    }
+    for ms in ["0", "1", "i32max", "i32max_plus1", "u32max"] {
+        v.push(format!("extreme_epoll_wait_{ms}"));
+    }
+    for op in ["file_open", "file_create", "dir_open", "fs_read", "fs_write", "copy_file", "remove_dir_all", "create_dir_all", "unix_connect", "unix_try_connect", "unix_bind"] {
+        for pth in ["len255", "len4095", "len5000", "highbit", "component256"] {
+            v.push(format!("extreme_{op}_path_{pth}"));
+        }
+    }
+    for op in ["tcp_connect", "tcp_try_connect", "tcp_bind"] {
+        for port in ["0", "1", "65535"] {
+            v.push(format!("extreme_{op}_port_{port}"));
+        }
+    }
+    for x in ["getpwuid_r_buf_0", "io_uring_entries_u32max", "tcp_read_timeout_empty_buf"] {
+        v.push(format!("extreme_{x}"));
+    }
     // objects of the WRONG kind: every descriptor-producing operation on something it is not meant for
     for op in ["dir_open", "dir_iterate", "remove_dir_all", "file_open", "file_create", "fs_read", "fs_write", "copy_file_from", "copy_file_to",
                "unix_connect", "unix_try_connect", "unix_bind"] {
@@ -201,6 +223,169 @@ fn make_object(obj: &str) -> (&'static str, Box<dyn Any>) {
             ("obj", Box::new(l))
         }
         x => panic!("object kind {x}"),
+    }
+}
+
+fn extreme_duration(d: &str) -> core::time::Duration {
+    use core::time::Duration;
+    match d {
+        "zero" => Duration::ZERO,
+        "1ns" => Duration::from_nanos(1),
+        "max" => Duration::MAX,
+        "secs_u64max" => Duration::from_secs(u64::MAX),
+        "nanos_u64max" => Duration::from_nanos(u64::MAX),
+        "secs_i64max" => Duration::from_secs(i64::MAX as u64),
+        "secs_i64max_plus1" => Duration::from_secs(i64::MAX as u64 + 1),
+        x => panic!("duration {x}"),
+    }
+}
+
+fn extreme_path(kind: &str) -> &'static UnixStr {
+    let s: String = match kind {
+        "len255" => "n".repeat(255),
+        "len4095" => format!("{}x", "d/".repeat(2047)),
+        "len5000" => format!("{}", "e/".repeat(2500)),
+        "highbit" => "caf\u{e9}-\u{1f980}.sock".to_string(),
+        "component256" => "c".repeat(256),
+        x => panic!("path {x}"),
+    };
+    lit(&s)
+}
+
+fn setup_extreme(name: &str) -> Option<Scen> {
+    let rest = name.strip_prefix("extreme_")?;
+    for op in ["tcp_connect_timeout", "tcp_accept_timeout", "unix_accept_timeout", "tcp_read_timeout"] {
+        if let Some(d) = rest.strip_prefix(&format!("{op}_")) {
+            if d == "empty_buf" {
+                break;
+            }
+            let dur = extreme_duration(d);
+            return Some(match op {
+                "tcp_connect_timeout" => {
+                    let bg = std::net::TcpListener::bind("127.0.0.1:0").unwrap();
+                    let addr = SocketAddress::new(Ip::V4([127, 0, 0, 1]), bg.local_addr().unwrap().port());
+                    scen_bg(bg, move || Ret::from(TcpStream::connect_with_timeout(&addr, dur), |s| (vec![s.as_raw_fd().value()], true)))
+                }
+                "tcp_accept_timeout" => {
+                    let mut l = TcpListener::bind(&SocketAddress::new(Ip::V4([127, 0, 0, 1]), 0)).unwrap();
+                    let port = format!("{:?}", l.local_addr().unwrap()).rsplit("port: ").next().unwrap().trim_end_matches([' ', '}']).parse::<u16>().unwrap();
+                    let client = std::net::TcpStream::connect(("127.0.0.1", port)).unwrap();
+                    std::thread::sleep(std::time::Duration::from_millis(20));
+                    scen_bg(client, move || {
+                        let ret = Ret::from(l.accept_with_timeout(dur), |s| (vec![s.as_raw_fd().value()], true));
+                        std::mem::forget(l);
+                        ret
+                    })
+                }
+                "unix_accept_timeout" => {
+                    let mut l = UnixListener::bind(lit("xl.sock")).unwrap();
+                    let client = std::os::unix::net::UnixStream::connect("xl.sock").unwrap();
+                    scen_bg(client, move || {
+                        let ret = Ret::from(l.accept_with_timeout(dur), |s| (vec![s.as_raw_fd().value()], true));
+                        std::mem::forget(l);
+                        ret
+                    })
+                }
+                _ => {
+                    let srv = std::net::TcpListener::bind("127.0.0.1:0").unwrap();
+                    let mut c = TcpStream::connect(&SocketAddress::new(Ip::V4([127, 0, 0, 1]), srv.local_addr().unwrap().port())).unwrap();
+                    let (mut peer, _) = srv.accept().unwrap();
+                    std::io::Write::write_all(&mut peer, b"pong").unwrap();
+                    std::thread::sleep(std::time::Duration::from_millis(20));
+                    scen_bg((srv, peer), move || {
+                        let mut b = [0u8; 4];
+                        let ret = Ret::unit(c.read_with_timeout(&mut b, dur));
+                        std::mem::forget(c);
+                        ret
+                    })
+                }
+            });
+        }
+    }
+    if rest == "tcp_read_timeout_empty_buf" {
+        let srv = std::net::TcpListener::bind("127.0.0.1:0").unwrap();
+        let mut c = TcpStream::connect(&SocketAddress::new(Ip::V4([127, 0, 0, 1]), srv.local_addr().unwrap().port())).unwrap();
+        let (mut peer, _) = srv.accept().unwrap();
+        std::io::Write::write_all(&mut peer, b"pong").unwrap();
+        return Some(scen_bg((srv, peer), move || {
+            let ret = Ret::unit(c.read_with_timeout(&mut [], core::time::Duration::from_millis(20)));
+            std::mem::forget(c);
+            ret
+        }));
+    }
+    if let Some(ms) = rest.strip_prefix("epoll_wait_") {
+        let ms: u32 = match ms {
+            "i32max" => i32::MAX as u32,
+            "i32max_plus1" => i32::MAX as u32 + 1,
+            "u32max" => u32::MAX,
+            x => x.parse().unwrap(),
+        };
+        let (a, mut b) = std::os::unix::net::UnixStream::pair().unwrap();
+        std::io::Write::write_all(&mut b, b"x").unwrap(); // ready at once: even the longest wait returns
+        let raw = rusl::platform::Fd::try_new(a.as_raw_fd()).unwrap();
+        return Some(scen_bg((a, b), move || {
+            let d = match EpollDriver::create(true) {
+                Ok(d) => d,
+                Err(e) => return Ret::err(e),
+            };
+            if let Err(e) = d.register(raw, 1, EpollEventMask::EPOLLIN) {
+                return Ret::err(e);
+            }
+            let mut ev = [tiny_std::linux::epoll::EpollEvent::new(0, EpollEventMask::EPOLLIN); 1];
+            match d.wait(&mut ev, if ms == 0 { EpollTimeout::NoWait } else { EpollTimeout::WaitMillis(ms) }) {
+                Ok(_) => Ret::ok(vec![], false, Box::new(d)),
+                Err(e) => Ret::err(e),
+            }
+        }));
+    }
+    for op in ["remove_dir_all", "create_dir_all", "unix_try_connect", "unix_connect", "unix_bind", "file_open", "file_create", "dir_open", "fs_read", "fs_write", "copy_file"] {
+        if let Some(kind) = rest.strip_prefix(&format!("{op}_path_")) {
+            let p = extreme_path(kind);
+            std::fs::write("small", b"small file\n").unwrap();
+            let small = lit("small");
+            let op = op.to_string();
+            return Some(scen(move || match op.as_str() {
+                "file_open" => Ret::from(File::open(p), |f| (vec![f.as_raw_fd().value()], true)),
+                "file_create" => Ret::from(OpenOptions::new().create(true).write(true).open(p), |f| (vec![f.as_raw_fd().value()], true)),
+                "dir_open" => Ret::from(Directory::open(p), |_| (vec![], false)),
+                "fs_read" => Ret::unit(tiny_std::fs::read(p)),
+                "fs_write" => Ret::unit(tiny_std::fs::write(p, b"data")),
+                "copy_file" => Ret::from(tiny_std::fs::copy_file(small, p), |f| (vec![f.as_raw_fd().value()], true)),
+                "remove_dir_all" => Ret::unit(tiny_std::fs::remove_dir_all(p)),
+                "create_dir_all" => Ret::unit(tiny_std::fs::create_dir_all(p)),
+                "unix_connect" => Ret::from(UnixStream::connect(p), |s| (vec![s.as_raw_fd().value()], true)),
+                "unix_try_connect" => Ret::from(UnixStream::try_connect(p), |s| (s.iter().map(|s| s.as_raw_fd().value()).collect(), true)),
+                _ => Ret::from(UnixListener::bind(p), |_| (vec![], false)),
+            }));
+        }
+    }
+    for op in ["tcp_try_connect", "tcp_connect", "tcp_bind"] {
+        if let Some(port) = rest.strip_prefix(&format!("{op}_port_")) {
+            let addr = SocketAddress::new(Ip::V4([127, 0, 0, 1]), port.parse().unwrap());
+            let op = op.to_string();
+            return Some(scen(move || match op.as_str() {
+                "tcp_connect" => Ret::from(TcpStream::connect(&addr), |s| (vec![s.as_raw_fd().value()], true)),
+                "tcp_try_connect" => Ret::from(TcpStream::try_connect(&addr), |s| match s {
+                    TcpTryConnect::Connected(s) => (vec![s.as_raw_fd().value()], true),
+                    TcpTryConnect::InProgress(_) => (vec![], false),
+                }),
+                _ => Ret::from(TcpListener::bind(&addr), |_| (vec![], false)),
+            }));
+        }
+    }
+    match rest {
+        "getpwuid_r_buf_0" => Some(scen(move || {
+            let r = vharness::guarded(|| tiny_std::unix::passwd::getpw_r::getpwuid_r(0, &mut []).map(|o| o.is_some()));
+            match r {
+                Ok(r) => Ret::unit(r),
+                Err(p) => Ret::err(format!("panicked: {p}")),
+            }
+        })),
+        "io_uring_entries_u32max" => Some(scen(move || {
+            let r = rusl::io_uring::setup_io_uring(u32::MAX, rusl::platform::IoUringParamFlags::empty(), 0, 0);
+            Ret::from(r, |u| (vec![u.fd.value()], true))
+        })),
+        _ => None,
     }
 }
 
@@ -366,6 +551,9 @@ fn setup_boundary(name: &str, root: &Path) -> Option<Scen> {
     }
     if name.starts_with("wrongkind_") {
         return setup_wrongkind(name);
+    }
+    if name.starts_with("extreme_") {
+        return setup_extreme(name);
     }
     if name == "epoll_wait_zero_buf" {
         return Some(scen(move || {
